@@ -490,6 +490,228 @@ pub fn check_exec_named(source: &str, tgt: Tgt, arg_seed: u64, vectors: usize, e
     Verdict::Pass { nontrivial: Some(hash_of(&(source, arg_seed))), labels }
 }
 
+/// Build a compute entry point that calls the functions of `module` with arguments made from the thread id and
+/// stores every result in a static variable; None when no function qualifies.
+fn entry_text(module: &ir::Module) -> Option<(String, usize)> {
+    let reg = &module.function_registry;
+    let tr = &module.type_registry;
+    let mut method_ids = std::collections::HashSet::new();
+    for sd in module.struct_registry.iter() {
+        for mid in &sd.methods {
+            method_ids.insert(mid.0);
+        }
+    }
+    // qualified names that occur once
+    let mut names: Vec<(ir::FunctionId, String)> = Vec::new();
+    for id in reg.iter() {
+        if reg.get_intrinsic_data(id).is_some() || method_ids.contains(&id.0) {
+            continue;
+        }
+        let sig = reg.get_function_signature(id);
+        if !sig.template_params.is_empty() || reg.get_template_instantiation_data(id).is_some() {
+            continue;
+        }
+        if reg.get_function_implementation(id).is_none() {
+            continue;
+        }
+        let nd = reg.get_function_name_definition(id);
+        let mut q = nd.name.node.clone();
+        let mut ns = nd.namespace;
+        while let Some(n) = ns {
+            q = format!("{}::{}", module.namespace_registry.get_namespace_name(n), q);
+            ns = module.namespace_registry.get_namespace_parent(n);
+        }
+        names.push((id, q));
+    }
+    const C: [&str; 3] = ["x", "y", "z"];
+    // an expression of type `ty` made from zz_id, starting at component `k`
+    let value = |ty: ir::TypeId, k: usize| -> Option<String> {
+        let t = tr.remove_modifier(ty);
+        let name = module.get_type_name_short(t);
+        Some(match tr.get_type_layer(t) {
+            ir::TypeLayer::Scalar(_) => format!("({})zz_id.{}", name, C[k % 3]),
+            ir::TypeLayer::Vector(_, n) => format!("({})zz_id.{}", name, (0..n as usize).map(|j| C[(k + j) % 3]).collect::<String>()),
+            ir::TypeLayer::Struct(_) => format!("({})0", name),
+            ir::TypeLayer::Enum(_) => format!("({})zz_id.{}", name, C[k % 3]),
+            _ => return None,
+        })
+    };
+    let mut statics = String::new();
+    let mut body = String::new();
+    let mut calls = 0usize;
+    for (id, q) in &names {
+        if names.iter().filter(|(_, n)| n == q).count() != 1 || calls >= 6 {
+            continue;
+        }
+        let imp = reg.get_function_implementation(*id).clone()?;
+        let sig = reg.get_function_signature(*id);
+        let mut pre = String::new();
+        let mut post = String::new();
+        let mut args = Vec::new();
+        let mut ok = true;
+        for (i, p) in imp.params.iter().enumerate() {
+            let Some(v) = value(p.param_type.type_id, calls + i) else {
+                ok = false;
+                break;
+            };
+            if matches!(p.param_type.input_modifier, ir::InputModifier::In) {
+                args.push(v);
+            } else {
+                let tn = module.get_type_name_short(tr.remove_modifier(p.param_type.type_id));
+                pre.push_str(&format!("    {} zz_p{}_{} = {};\n", tn, calls, i, v));
+                statics.push_str(&format!("static {} zz_o{}_{};\n", tn, calls, i));
+                post.push_str(&format!("    zz_o{}_{} = zz_p{}_{};\n", calls, i, calls, i));
+                args.push(format!("zz_p{}_{}", calls, i));
+            }
+        }
+        if !ok {
+            continue;
+        }
+        let rt = tr.remove_modifier(sig.return_type.return_type);
+        let call = format!("{}({})", q, args.join(", "));
+        body.push_str(&pre);
+        match tr.get_type_layer(rt) {
+            ir::TypeLayer::Void => body.push_str(&format!("    {};\n", call)),
+            ir::TypeLayer::Scalar(_) | ir::TypeLayer::Vector(..) | ir::TypeLayer::Struct(_) | ir::TypeLayer::Enum(_) => {
+                statics.push_str(&format!("static {} zz_r{};\n", module.get_type_name_short(rt), calls));
+                body.push_str(&format!("    zz_r{} = {};\n", calls, call));
+            }
+            _ => continue,
+        }
+        body.push_str(&post);
+        calls += 1;
+    }
+    if calls == 0 {
+        return None;
+    }
+    Some((format!("\n{}[numthreads(1, 1, 1)]\nvoid zz_entry(uint3 zz_id : SV_DispatchThreadID) {{\n{}}}\nPipeline ZZ_P {{ ComputeShader = zz_entry; }}\n", statics, body), calls))
+}
+
+/// The oracle for whole pipelines: the program gets a compute entry point that calls its functions; the entry point
+/// of the typed IR and the generated entry point of the emitted text are run on thread ids and the final values of
+/// all static variables are compared (in Metal they live in the generated entry point and travel as references).
+pub fn check_exec_entry(base: &str, tgt: Tgt, arg_seed: u64, vectors: usize) -> Verdict {
+    let base_module = match type_check_text(base) {
+        Err(p) => return Verdict::Fail { signature: format!("panic:{}", p), detail: "front end panicked".into() },
+        Ok(Err(d)) => return Verdict::Skip(format!("front end rejects: {}", norm(d.lines().next().unwrap_or("")))),
+        Ok(Ok(m)) => m,
+    };
+    let Some((entry, calls)) = entry_text(&base_module) else { return Verdict::Skip("no function to call from an entry point".into()) };
+    let source = format!("{}{}", base, entry);
+    let module = match type_check_text(&source) {
+        Err(p) => return Verdict::Fail { signature: format!("panic:{}", p), detail: format!("front end panicked\n{}", source) },
+        Ok(Err(d)) => return Verdict::Skip(format!("front end rejects the entry point: {}", norm(d.lines().next().unwrap_or("")))),
+        Ok(Ok(m)) => m,
+    };
+    let files = vec![("main.rssl".to_string(), source.clone())];
+    let text = match compile(&CompileReq { files: &files, entry: "main.rssl", defines: &[], tgt, mode: Mode::All, validate_layout: false }) {
+        Err(p) => return Verdict::Fail { signature: format!("panic:{}", p), detail: format!("compile panicked\n{}", source) },
+        Ok(Err(d)) => return Verdict::Skip(format!("backend rejects: {}", norm(d.lines().next().unwrap_or("")))),
+        Ok(Ok(p)) => match p.first() {
+            Some(p) => pipeline_text(p),
+            None => return Verdict::Skip("no output".into()),
+        },
+    };
+    let d = dialect_of(tgt);
+    let unit = match ctext::parse(&text) {
+        Ok(u) => u,
+        Err(e) => return Verdict::Fail { signature: format!("parse:{}", norm(&e)), detail: format!("emitted text does not parse as {:?}: {}\n{}", d, e, text) },
+    };
+    if let Err(csem::Stop::Bad(m)) = Sem::new(&unit, d).well_formed() {
+        return Verdict::Fail { signature: format!("bad:{}", norm(&m)), detail: format!("the emitted text is ill-formed as {:?}: {}\n{}", d, m, text) };
+    }
+    let reg = &module.function_registry;
+    let Some(entry_id) = reg.iter().find(|id| reg.get_intrinsic_data(*id).is_none() && reg.get_function_name_definition(*id).name.node == "zz_entry") else { return Verdict::Skip("entry point not in the IR".into()) };
+    let entry_name = if d == Dialect::Msl { "ComputeShaderEntry" } else { "zz_entry" };
+    let Some(tf) = unit.funcs.iter().find(|f| f.has_body && f.name == entry_name) else {
+        return Verdict::Fail { signature: "missing-function".into(), detail: format!("no entry point {} in the emitted text\n{}", entry_name, text) };
+    };
+    let mut labels = vec![format!("entry_calls:{}", calls), "entry_point".to_string()];
+    let mut compared = 0usize;
+    for vec_index in 0..vectors {
+        let mut mix = Mix(arg_seed ^ ((vec_index as u64) << 20));
+        let dtid = V::Vec(match vec_index {
+            0 => vec![V::UInt(0), V::UInt(0), V::UInt(0)],
+            1 => vec![V::UInt(1), V::UInt(2), V::UInt(3)],
+            _ => (0..3).map(|_| V::UInt(mix.of(UINTS))).collect(),
+        });
+        let mut it = Interp::new(&module);
+        if let Err(e) = it.init_globals() {
+            labels.push(format!("e2_unsupported:{}", norm(&format!("{:?}", e))));
+            break;
+        }
+        match it.run_function(entry_id, &[dtid.clone()]) {
+            Ok(_) => {}
+            Err(irsem::Stop::Fuel) => {
+                labels.push("e2_fuel".into());
+                continue;
+            }
+            Err(irsem::Stop::Unsupported(m)) if m.contains("missing argument without a default") => {
+                return Verdict::Fail { signature: "ir:missing-default-argument".into(), detail: format!("a call in the typed IR omits an argument for which the callee records no default value\n--- source\n{}", source) };
+            }
+            Err(e) => {
+                labels.push(format!("e2_unsupported:{}", norm(&format!("{:?}", e))));
+                break;
+            }
+        }
+        let mut sem = Sem::new(&unit, d);
+        if let Err(e) = sem.init_globals() {
+            match e {
+                csem::Stop::Bad(m) => return Verdict::Fail { signature: format!("bad:{}", norm(&m)), detail: format!("global initialisers of the emitted text: {}\n{}", m, text) },
+                other => {
+                    labels.push(format!("e3_unsupported:{}", norm(&format!("{:?}", other))));
+                    break;
+                }
+            }
+        }
+        let locals = match sem.run_capture(tf, vec![dtid.clone()]) {
+            Ok(l) => l,
+            Err(csem::Stop::Fuel) => {
+                labels.push("e3_fuel".into());
+                continue;
+            }
+            Err(csem::Stop::Unsupported(m)) => {
+                labels.push(format!("e3_unsupported:{}", norm(&m)));
+                break;
+            }
+            Err(csem::Stop::Bad(m)) => {
+                return Verdict::Fail { signature: format!("bad:{}", norm(&m)), detail: format!("entry point {} of the emitted text is not meaningful as {:?}: {}\nthread id {}\n{}", tf.name, d, m, show(&dtid), text) };
+            }
+        };
+        let mut seen = 0usize;
+        for g in 0..module.global_registry.len() {
+            let def = &module.global_registry[g];
+            let Some(a) = it.globals.get(&(g as u32)) else { continue };
+            let name = &def.name.node;
+            let b = if d == Dialect::Msl { locals.get(name).cloned().or_else(|| sem.global_value(name)) } else { sem.global_value(name) };
+            let Some(b) = b else {
+                // a static nobody reads or writes may be left out; an observer of a result may not
+                if name.starts_with("zz_") {
+                    return Verdict::Fail { signature: "entry:static-missing".into(), detail: format!("static {} is assigned by the entry point but does not exist in the emitted text\n{}", name, text) };
+                }
+                continue;
+            };
+            if !same(a, &b) {
+                return Verdict::Fail {
+                    signature: "mismatch:entry-static".into(),
+                    detail: format!("after the entry point ran on thread id {}, static {} is {} by the source semantics but {} in the emitted {:?}\n--- source\n{}\n--- emitted\n{}", show(&dtid), name, show(a), show(&b), d, source, text),
+                };
+            }
+            seen += 1;
+        }
+        if seen > 0 {
+            compared += 1;
+        }
+    }
+    if compared == 0 {
+        labels.retain(|l| l.contains("unsupported") || l.contains("fuel"));
+        return Verdict::Skip(format!("no static compared: {}", labels.join(", ")));
+    }
+    labels.sort();
+    labels.dedup();
+    Verdict::Pass { nontrivial: Some(hash_of(&(&source, arg_seed, 1u8))), labels }
+}
+
 pub fn record(source: &str, tgt: Tgt, arg_seed: u64) -> Value {
     json!({"source": source, "target": tgt.name(), "arg_seed": arg_seed})
 }
@@ -501,6 +723,9 @@ pub fn check_record_with(r: &Value, allowed: &[Tgt], vectors: usize) -> Verdict 
         return Verdict::Skip("target not covered by this property".into());
     }
     let seed = r["arg_seed"].as_u64().unwrap_or(0);
+    if r["entry"].as_bool().unwrap_or(false) {
+        return check_exec_entry(src, tgt, seed, 3);
+    }
     check_exec(src, tgt, seed, r["vectors"].as_u64().map(|v| v as usize).unwrap_or(vectors))
 }
 
@@ -585,6 +810,19 @@ pub fn run_common(ctx: &mut Ctx, targets: &'static [Tgt], check: fn(&Value) -> V
         |(ch, t, seed): &(Vec<u32>, usize, u64)| record(&progen::generate(ch, prof.clone()).1, targets[*t], *seed),
         check,
     );
+    // ---- the same programs behind a generated compute entry point, compiled as a pipeline
+    ctx.run_prop(
+        "entry_point_programs",
+        ctx.tier.pick(6_000, 120_000),
+        || (progen::choices_strategy(700), 0usize..n_t, any::<u64>()),
+        |(ch, t, seed): &(Vec<u32>, usize, u64)| {
+            let mut r = record(&progen::generate(ch, prof.clone()).1, targets[*t], *seed);
+            r["entry"] = json!(true);
+            r
+        },
+        check,
+    );
+    ctx.require_label("entry_point", 50);
     ctx.require_label("out_params", 50);
     ctx.require_label("global_compared", 50);
     if msl {
